@@ -264,6 +264,13 @@ static void run_hp(const Group &G, long k, size_t role, Peer &P, Counter &C) {
 	if (reveals_before_first_read(log, 0, s, which)) violation("C17/ordering/share-written-before-anything-read", "honest side wrote its " + which + " before reading anything from the peer", w.str());
 	else count("hp_ordering_general_ok");
 
+	// withholding peer: what the honest side holds as its share must not be among the integers it had
+	// written when it first blocked (also when the run later ends in a refusal)
+	if (P.withheld) {
+		C.evals++;
+		if (contains(P.W, s.share.v) || contains(P.W, s.blind.v)) violation("C17/ordering/share-on-wire-before-peer-commitment", "the honest share (RVSS state) was on the wire when the honest side first blocked for the withheld commitment", w.str());
+		else count("hp_withheld_state_share_not_in_W");
+	}
 	bool expect_accept = P.strat == S_EAGER || P.strat == S_SEQ || P.strat == S_WITHHOLD || (P.strat == S_ADAPTIVE && P.early);
 	bool expect_refuse = P.strat == S_MISMATCH || P.strat == S_MUTATED || (P.strat == S_ADAPTIVE && !P.early);
 	bool observe_only = P.strat == S_COPYCAT || P.strat == S_NEGREP;
@@ -381,7 +388,11 @@ static void part_twoparty(long &kc, const Group &G, int scale) {
 }
 
 // ------------------------------------------------------------------ n-party in SimNet
-struct Scn { size_t n = 2, t = 0; std::vector<int> faulty, silent; int slow = -1; long D = 0; bool jitter = false; double preempt = 0.0; std::string label; };
+struct Scn { size_t n = 2, t = 0; std::vector<int> faulty, silent; int slow = -1; long D = 0; bool jitter = false; double preempt = 0.0; std::string label;
+	// 3t < n: inside the resilience bound of the reliable broadcast (it prints a warning otherwise).  Beyond it every
+	// delivery needs the r-ready of *all* parties, and a party that already waits in a unicast Receive does not serve
+	// the broadcast: completion then depends on the schedule, so only safety is judged there.
+	bool within_rbc_bound() const { return 3 * t < n; } };
 struct SentMsg { size_t from; long at; Z v; int net; };
 
 static void run_nparty(const Group &G, long k, const Scn &sc, Counter &C) {
@@ -395,8 +406,9 @@ static void run_nparty(const Group &G, long k, const Scn &sc, Counter &C) {
 	Rng jit(ctx.seed, runid, 77);
 	long Tw = -1; std::vector<SentMsg> early; std::vector<std::pair<size_t, uint64_t>> late; long long nmsgs = 0;
 	auto fault = [&](size_t from, size_t, mpz_ptr, long &delay, int &) { if ((int)from == sc.slow) delay = sc.D; else if (sc.jitter && jit.below(4) == 0) delay = (long)jit.below(3); return true; };
-	auto onsend = [&](int net) { return [&, net](size_t from, size_t, mpz_srcptr v, long at) {
+	auto onsend = [&](int net) { return [&, net](size_t from, size_t to_, mpz_srcptr v, long at) {
 		nmsgs++;
+		if (ctx.option("trace", "") == "1") fprintf(stderr, "t=%ld %s %zu->%zu arr=%ld %s\n", g_vtime - t0, net ? "bc" : "uni", from, to_, at - t0, shorten(mpz_b62(v), 12).c_str());
 		if ((int)from == sc.slow) { if (Tw < 0 || at < Tw) Tw = at; return; }
 		if (sc.slow < 0) return;
 		if (g_vtime < t0 + sc.D) { SentMsg m; m.from = from; m.at = g_vtime; mpz_set(m.v.v, v); m.net = net; early.push_back(m); }
@@ -429,7 +441,14 @@ static void run_nparty(const Group &G, long k, const Scn &sc, Counter &C) {
 	for (size_t i = 0; i < n; i++) { Task *tk = sched.tasks[i]; if (tk->threw_other || tk->threw_std) { J ww = w; ww.kv("party", (long long)i).kv("exception", tk->exc); violation("C17/nparty/exception", "an exception escaped Flip", ww.str()); broken = true; } }
 	if (sched.hung) { violation("C17/hang/n-party", "n-party flip did not terminate", w.str()); broken = true; }
 	std::vector<size_t> H; for (size_t i = 0; i < n; i++) if (!isf[i] && !issil[i]) H.push_back(i);
-	for (size_t i : H) if (ret[i] != 1 && !broken) { J ww = w; ww.kv("party", (long long)i).kv("log", shorten(errs[i], 1500)); violation(std::string("C17/nparty/honest-flip-failed/") + (sc.silent.size() ? "silent-party" : sc.faulty.size() ? "faulty-party" : sc.slow >= 0 ? "slow-party" : "all-honest"), "Flip returned false at an honest party in an admissible scenario", ww.str()); broken = true; }
+	if (!sc.within_rbc_bound()) {
+		count("np_runs_beyond_broadcast_bound");
+		std::vector<size_t> H2; for (size_t i : H) if (ret[i] == 1) H2.push_back(i);
+		if (H2.size() != H.size()) count("np_beyond_broadcast_bound_incomplete");
+		H = H2;
+		if (H.empty()) { C.distinct.insert(sc.label); return; }
+	}
+	for (size_t i : H) if (ret[i] != 1 && !broken) { J ww = w; ww.kv("party", (long long)i); { std::vector<std::string> lg; for (auto &e : errs) lg.push_back(shorten(e, 1800)); ww.arr("party_logs", lg); } violation(std::string("C17/nparty/honest-flip-failed/") + (sc.silent.size() ? "silent-party" : sc.faulty.size() ? "faulty-party" : sc.slow >= 0 ? "slow-party" : "all-honest"), "Flip returned false at an honest party in an admissible scenario", ww.str()); broken = true; }
 	if (broken) { C.distinct.insert(sc.label); return; }
 	size_t h0 = H[0]; const std::vector<size_t> &Q = ed[h0]->rvss->Qual;
 	for (size_t i : H) {
@@ -437,7 +456,7 @@ static void run_nparty(const Group &G, long k, const Scn &sc, Counter &C) {
 		if (mpz_cmp(a[i].v, a[h0].v)) { violation("C17/nparty/outputs-differ", "honest parties output different coin values", w.str()); break; }
 		if (ed[i]->rvss->Qual != Q) { violation("C17/nparty/qual-differs", "honest parties hold different Qual sets", w.str()); break; }
 	}
-	for (size_t i : H) if (std::find(Q.begin(), Q.end(), i) == Q.end()) violation("C17/nparty/honest-not-in-qual", "an honest party was disqualified", w.str());
+	for (size_t i : H) if (std::find(Q.begin(), Q.end(), i) == Q.end()) violation("C17/nparty/honest-not-in-qual", "an honest party that completed the flip is not in Qual", w.str());
 	for (int s : sc.silent) if (std::find(Q.begin(), Q.end(), (size_t)s) != Q.end()) violation("C17/nparty/silent-party-in-qual", "a party that never sent anything is in Qual", w.str());
 	// sum over Qual of the committed shares; the share of a party is what its own RVSS object holds,
 	// checked against the commitment C_j0 that the honest parties hold for it
@@ -486,17 +505,19 @@ static void part_nparty(long &kc, const Group &G) {
 	size_t nmax = ctx.quick() ? 5 : 7; int reps = ctx.quick() ? 1 : 3;
 	for (int rep = 0; rep < reps; rep++) {
 		for (size_t n = 2; n <= nmax; n++) for (size_t t = 0; 2 * t < n; t++) {
-			if (ctx.quick() && n == 5 && t == 0) continue;
-			add(n, t, {}, {}, -1, 0, false, 0.0, "honest");
+			bool bound = 3 * t < n;
+			add(n, t, {}, {}, -1, 0, false, 0.0, bound ? "honest" : "honest-beyond-broadcast-bound");
+			if (!bound) continue;
 			add(n, t, {}, {}, -1, 0, true, 0.1, "honest");
 			// one slow honest party (ordering monitor); t = 0 makes the private sub-shares equal to the share itself
-			for (size_t w = 0; w < n; w++) { if (n > 3 && w != (n + t + rep) % n) continue; add(n, t, {}, {}, (int)w, 1 + (long)((n + t + w + rep) % 5), false, 0.0, "slow"); }
-			if (3 * t < n && t >= 1) {
+			for (size_t w = 0; w < n; w++) { if (n > 4 && w != (n + t + rep) % n) continue; add(n, t, {}, {}, (int)w, 1 + (long)((n + t + w + rep) % 5), false, 0.0, "slow"); }
+			if (t >= 1) {
 				// every faulty set of size 1 (and of size 2 for t = 2), library's own deviation switch
 				for (size_t f = 0; f < n; f++) add(n, t, {(int)f}, {}, -1, 0, false, 0.0, "faulty");
 				if (t >= 2) for (size_t f = 0; f < n; f++) for (size_t g = f + 1; g < n; g++) { if ((f + g + rep) % 3) continue; add(n, t, {(int)f, (int)g}, {}, -1, 0, false, 0.0, "faulty"); }
 				add(n, t, {(int)((n + rep) % n)}, {}, (int)((n + rep + 1) % n), 2, false, 0.0, "faulty+slow");
 				add(n, t, {}, {(int)((n + rep + 2) % n)}, -1, 0, false, 0.0, "silent");
+				if (t >= 2) add(n, t, {(int)((n + rep) % n)}, {(int)((n + rep + 3) % n)}, -1, 0, false, 0.0, "faulty+silent");
 			}
 		}
 	}
@@ -510,7 +531,7 @@ static void part_nparty(long &kc, const Group &G) {
 
 int main(int argc, char **argv) {
 	init(argc, argv);
-	null_cerr();
+	if (ctx.option("cerr", "") != "1") null_cerr();      // --opt cerr=1 keeps the library's diagnostics (debugging)
 	if (!init_libTMCG()) { fprintf(stderr, "init_libTMCG failed\n"); return 2; }
 	long k = 0;
 	Group S = make_group(512, 160, 17);
